@@ -87,6 +87,8 @@ def run(lanes, k, hooks, init_states=None):
             for pos in range(n):
                 ins = [bl["instructions"][pos] for bl in blks]
                 hooks.before(b, pos, ins, g, sts)
+                for i in range(len(lanes)):
+                    lanes[i].ctx.cur_tag = (step, b, ins[i]["index"])          # names the unknown values a declared intrinsic writes
                 kinds = [exec_op(lanes[i].ctx, sts[i], ins[i]["op"], g, lanes[i].events) for i in range(len(lanes))]
                 hooks.after(b, pos, ins, g, sts, kinds)
                 if any(kd != "fall" for kd in kinds):
